@@ -9,6 +9,7 @@ import (
 	"os"
 	"path"
 	"path/filepath"
+	"slices"
 	"strings"
 	"time"
 
@@ -46,11 +47,12 @@ func NewPermissions(name string) (Permissions, error) {
 }
 
 func (p Permissions) Permissions(desc *Description) []string {
+	// the caller owns the result and may modify it in place
 	if p.name == "" {
-		return p.permissions
+		return slices.Clone(p.permissions)
 	}
 
-	perms := permissionsMap[p.name]
+	perms := slices.Clone(permissionsMap[p.name])
 
 	op := false
 	present := false
